@@ -576,6 +576,20 @@ fn decode(t: &mut Tape, ops: &[(BOp, String)], u1: &[IParts]) -> Case {
                 1 + t.below(w)
             };
             let low = t.below(w - size + 1);
+            // interval lengths exactly at (and next to) the number of values the kept bytes can hold
+            let k = if t.flag() { size } else { low + size };
+            if k < w && t.prob(70) {
+                let smax = (1i128 << (8 * w - 1)) - 1;
+                let stride = *t.choose(&[1i128, 1, 2, 4, 16, 256, 3, 5]);
+                let span = ((1i128 << (8 * k)) + t.range(-1, 1) as i128) / stride * stride;
+                if span > 0 && span <= smax {
+                    let mut start = rs::sext(t.int(w), w);
+                    if start > smax - span {
+                        start = smax - span;
+                    }
+                    return Case::Sub(low, size, IParts::new(start, start + span, stride as u64, w));
+                }
+            }
             Case::Sub(low, size, a)
         }
     }
